@@ -45,6 +45,37 @@ def check(run, prog, tier):
     rule_B(run, prog)
     rule_C(run, prog)
     rule_D(run, prog)
+    run.rule("C17-F", "the populations handed out depend linearly on the initial populations (degree analysis): no renormalisation, "
+                      "clipping or added constant on the way from p(0) to p(t)", minimum=2)
+    rule_F(run, prog)
+
+
+def rule_F(run, prog):
+    """'propagate() conserves the sum of populations and equals exp(K t) p0': both for every p0 - a block of a larger
+    vector, particle numbers, a difference of two states.  exp(K t) p0 is linear in p0, so the value returned by
+    propagate() must be of degree one in its argument.  The degree analysis (qv/lin.py) follows the statements of
+    propagate and of the methods it calls; a division by sum(p), a clipping to [0, 1], an added offset give degree 'N'."""
+    from .. import lin
+    rid = "C17-F"
+    cls = prog.cls(PP)
+    n = 0
+    for nme in ("propagate", "_propagate_short_exp"):
+        f = cls.methods[nme]
+        prog.consulted.add(f.relpath)
+        par = f.node.args.args[1].arg
+        dg = lin.Degrees(prog, cls)
+        env = {a.arg: lin.C for a in f.node.args.args[1:]}
+        env[par] = lin.L
+        d = dg.run(f.node, env)
+        n += 1
+        at = dg.trace[0] if dg.trace else f.node
+        run.obligation(rid, f.short, d == lin.L, key="linear-in-initial-populations",
+                       message="%s returns a value of degree %s in %s (L = linear): `%s` is where linearity is lost.  The propagation "
+                               "is then exp(K t) p0 only for initial vectors of one particular norm - a vector whose sum is not 1 "
+                               "(a block of populations, particle numbers) comes back rescaled, its sum not conserved"
+                               % (f.short, d, par, norm(at)[:70] if dg.trace else ""), loc=f.loc(at), sample={"degree": d})
+    if n < 2:
+        raise AnalysisError("C17-F: propagate and its short-exponential routine not found")
 
 
 def rule_A(run, prog):
